@@ -19,6 +19,7 @@ AllQueriesRaised(r) == \A i \in 1..Len(r.qexc) : r.qexc[i] # ""
 \* the invalid-sequence error; on a valid one none raises.
 TotalFails(r) ==
   Chk("C17:IsValidTotal", r.exc = "")
+  \cup Chk("C06:SameWrapperSameAnswer", r.exc # "" \/ r.again)
   \cup (IF r.exc # "" THEN {} ELSE
         IF r.valid THEN Chk("C17:ValidQueriesAnswer", NoQueryRaised(r))
         ELSE Chk("C17:InvalidRaisesInvalidSequence", AllQueriesRaised(r) /\ r.qinv))
